@@ -270,13 +270,17 @@ pub fn gen_layout_history(rng: &mut Rng) -> History {
         5 | 6 => Alphabet::Arbitrary,
         _ => Alphabet::Mixed,
     };
-    let nvariants = match rng.below(10) {
-        0 => 1,
-        1 | 2 => 2,
-        3 | 4 | 5 => rng.range(3, 4),
-        6 | 7 | 8 => rng.range(5, 7),
-        _ => rng.range(8, 10),
+    let nvariants = match rng.below(50) {
+        0..=4 => 1,
+        5..=14 => 2,
+        15..=29 => rng.range(3, 4),
+        30..=43 => rng.range(5, 7),
+        44..=48 => rng.range(8, 10),
+        // long histories: hundreds of datum identifiers, two-digit variant numbers
+        _ => rng.range(15, 40),
     };
+    // big data now and then: offsets and sizes beyond 255 / 256 / 1024 / 4096
+    let big_num = *rng.pick(&[0usize, 0, 0, 0, 0, 0, 0, 1, 1, 3]); // out of 10
     let uniform_strat = if rng.chance(1, 2) {
         Some(*rng.pick(&STRATS))
     } else {
@@ -311,6 +315,10 @@ pub fn gen_layout_history(rng: &mut Rng) -> History {
             let mut shape = draw_shape(rng, alpha);
             if zst_boost && rng.chance(1, 3) {
                 shape = sh(0, 1 << rng.below(5));
+            }
+            if rng.below(10) < big_num {
+                let size = *rng.pick(&[255usize, 256, 257, 320, 1000, 1024, 4095, 4096, 4100]);
+                shape = sh(size, 1 << rng.below(5));
             }
             pending_ops.push(Req::Add {
                 name: usize::MAX, // assigned below
